@@ -23,8 +23,10 @@ import (
 
 	"verif/explore"
 	"verif/harness/reg"
+	"verif/vs"
 
 	_ "verif/harness/c03"
+	_ "verif/harness/c11"
 )
 
 type replayFile struct {
@@ -76,7 +78,7 @@ func main() {
 			fmt.Println(i.Name)
 		}
 	case "worker":
-		worker(*prop, *tier, *name, *budget)
+		worker(*prop, *tier, *name, *budget, *known)
 	case "replay":
 		os.Exit(replay(*file))
 	case "run":
@@ -87,7 +89,7 @@ func main() {
 	}
 }
 
-func worker(prop, tier, name string, budget float64) {
+func worker(prop, tier, name string, budget float64, known string) {
 	debug.SetGCPercent(200)
 	inst := reg.Find(prop, name)
 	if inst == nil {
@@ -95,6 +97,13 @@ func worker(prop, tier, name string, budget float64) {
 		return
 	}
 	sc := inst.Make(tierOf(tier))
+	kfs := loadKnown(known)
+	sc.Known = func(f vs.Failure) string {
+		if k := matchKnown(kfs, prop, name, f.Clause, f.Msg); k != nil {
+			return k.ID
+		}
+		return ""
+	}
 	var dl time.Time
 	if budget > 0 {
 		dl = time.Now().Add(time.Duration(budget * float64(time.Second)))
@@ -171,10 +180,10 @@ func loadKnown(path string) []knownFinding {
 	return kf.Findings
 }
 
-func matchKnown(kfs []knownFinding, prop, scenario string, v *explore.Violation) *knownFinding {
+func matchKnown(kfs []knownFinding, prop, scenario string, clause, msg string) *knownFinding {
 	for i := range kfs {
 		k := &kfs[i]
-		if k.Property != prop || k.Status != "open" || k.Clause != v.Clause {
+		if k.Property != prop || k.Status != "open" || k.Clause != clause {
 			continue
 		}
 		if k.Scenario != "" {
@@ -183,7 +192,7 @@ func matchKnown(kfs []knownFinding, prop, scenario string, v *explore.Violation)
 			}
 		}
 		if k.Match != "" {
-			if ok, _ := regexp.MatchString(k.Match, v.Msg+"\n"+v.Panic); !ok {
+			if ok, _ := regexp.MatchString(k.Match, msg); !ok {
 				continue
 			}
 		}
@@ -224,7 +233,7 @@ func run(prop, tier string, budget float64, evidence, known, replays string, wor
 				results[i] = explore.Stats{Scenario: inst.Name, Capped: "not started: budget exhausted", BoundC: -2}
 				return
 			}
-			cmd := exec.Command(self, "worker", "-prop", prop, "-tier", tier, "-name", inst.Name, "-budget", strconv.FormatFloat(left, 'f', 1, 64))
+			cmd := exec.Command(self, "worker", "-prop", prop, "-tier", tier, "-name", inst.Name, "-budget", strconv.FormatFloat(left, 'f', 1, 64), "-known", known)
 			cmd.Env = append(os.Environ(), "GOMAXPROCS=2", "GOMEMLIMIT=6GiB")
 			var errb strings.Builder
 			cmd.Stderr = &errb
@@ -283,6 +292,7 @@ func run(prop, tier string, budget float64, evidence, known, replays string, wor
 		tot.Outcomes += st.Outcomes
 		tot.Nontrivial += st.Nontrivial
 		tot.HorizonHits += st.HorizonHits
+		nknown += st.KnownCnt
 		if !st.Exhaustive {
 			tot.Exhaustive = false
 		}
@@ -295,15 +305,19 @@ func run(prop, tier string, budget float64, evidence, known, replays string, wor
 		for vi := range st.Violations {
 			v := &st.Violations[vi]
 			rf := replayFile{Property: prop, Instance: insts[i].Name, Tier: tier, V: *v}
-			k := matchKnown(kfs, prop, st.Scenario, v)
-			if k != nil {
-				rf.Finding = k.ID
+			var k *knownFinding
+			if v.Known != "" {
+				for ki := range kfs {
+					if kfs[ki].ID == v.Known {
+						k = &kfs[ki]
+					}
+				}
+				rf.Finding = v.Known
 			}
 			path := filepath.Join(replays, fmt.Sprintf("%s-%d-%d.json", prop, i, vi))
 			b, _ := json.MarshalIndent(rf, "", " ")
 			os.WriteFile(path, b, 0o644)
 			if k != nil {
-				nknown++
 				if !knownSeen[k.ID] {
 					knownSeen[k.ID] = true
 					lines = append(lines, fmt.Sprintf("KNOWN-FINDING: property=%s %s [%s] scenario=%s replay=%s", prop, k.What, k.ID, st.Scenario, path))
@@ -312,8 +326,12 @@ func run(prop, tier string, budget float64, evidence, known, replays string, wor
 			}
 			nviol++
 			exit = 1
-			lines = append(lines, fmt.Sprintf("VIOLATION property=%s replay=%s", prop, path))
-			lines = append(lines, fmt.Sprintf("  scenario=%s clause=%s: %.600s", st.Scenario, v.Clause, v.Msg))
+			if nviol <= 4 {
+				lines = append(lines, fmt.Sprintf("VIOLATION property=%s replay=%s", prop, path))
+				lines = append(lines, fmt.Sprintf("  scenario=%s clause=%s: %.600s", st.Scenario, v.Clause, v.Msg))
+			} else if nviol == 5 {
+				lines = append(lines, "  (further violations: see replay files)")
+			}
 		}
 	}
 	if len(samples) == 0 {
